@@ -38,6 +38,7 @@ type TrafficIn struct {
 	B      [][]WriteSpec `json:"b"`
 	Buf    int           `json:"buf"` // reader buffer size (>= every frame: the guard)
 	WaitMs int           `json:"wait_ms"`
+	SlowMs int           `json:"slow_ms"` // trunk Write calls > 1 MiB are delayed by this much
 }
 
 type TrafficObs struct {
@@ -126,6 +127,7 @@ func RunTraffic(in TrafficIn) TrafficObs {
 	taps := [2]*Tap{NewTap(ca), NewTap(cb)}
 	ms := [2]mux.Mux{}
 	for e := 0; e < 2; e++ {
+		taps[e].SlowBig = time.Duration(in.SlowMs) * time.Millisecond
 		ms[e] = mux.Multiplex(taps[e], mux.WithReadQueueLength(in.Qlen), mux.WithBlockedRead())
 	}
 	conns := [2]map[uint32]net.Conn{{}, {}}
@@ -184,16 +186,23 @@ func RunTraffic(in TrafficIn) TrafficObs {
 		}
 	}
 	progs := [2][][]WriteSpec{in.A, in.B}
+	// payloads are generated before any writer starts, and all writers start together
+	startW := make(chan struct{})
 	for e := 0; e < 2; e++ {
 		for wi, prog := range progs[e] {
 			wwg[e].Add(1)
-			go func(e, wi int, prog []WriteSpec) {
+			pls := make([][]byte, len(prog))
+			for k, ws := range prog {
+				pls[k] = Payload(ws.Len, ws.Seed, ws.Step)
+			}
+			go func(e, wi int, prog []WriteSpec, pls [][]byte) {
 				defer wwg[e].Done()
+				<-startW
 				for k, ws := range prog {
 					if !credits[e][ws.Conn].acquire(framesOf(ws.Len, in.Mp), stop) {
 						return
 					}
-					p := Payload(ws.Len, ws.Seed, ws.Step)
+					p := pls[k]
 					n, err := conns[e][ws.Conn].Write(p)
 					if err != nil || n != len(p) {
 						addErr(fmt.Sprintf("write end=%d writer=%d #%d: n=%d of %d err=%s", e, wi, k, n, len(p), Classify(err)))
@@ -202,9 +211,10 @@ func RunTraffic(in TrafficIn) TrafficObs {
 						}
 					}
 				}
-			}(e, wi, prog)
+			}(e, wi, prog, pls)
 		}
 	}
+	close(startW)
 	wait := time.Duration(in.WaitMs) * time.Millisecond
 	deadline := time.After(wait)
 	waitFor := func(f func()) bool {
@@ -256,8 +266,15 @@ func RunTraffic(in TrafficIn) TrafficObs {
 		}
 	}
 	close(stop)
-	ms[0].Close()
-	ms[1].Close()
+	closed := make(chan struct{})
+	go func() { ms[0].Close(); ms[1].Close(); close(closed) }()
+	select {
+	case <-closed:
+	case <-time.After(5 * time.Second):
+		if status == "ok" {
+			status = "blocked:close"
+		}
+	}
 	// give the goroutines a moment to notice, then snapshot
 	fin := make(chan struct{})
 	go func() { rwg[0].Wait(); rwg[1].Wait(); wwg[0].Wait(); wwg[1].Wait(); close(fin) }()
@@ -380,14 +397,25 @@ func BigTraffic(r *rand.Rand, mp int, variant int, i int) Job {
 			small(25, 11), small(25, 13),
 		}
 		in.B = [][]WriteSpec{small(10, 17)}
-	default: // one payload of 2–3 × maxPayload against small writers on the same connection
-		extra := 1 + r.Intn(mp-20)
-		if (2*mp+extra)%mp == SentinelLen {
-			extra++
+	default:
+		// two writers on the SAME connection, each with a payload of two frames and a bit
+		// (distinguishable contents), against small writers on that and other connections;
+		// the tap delays every large trunk write a little so that whoever waits for the
+		// trunk gets it as soon as it is released: if the lock were dropped between the
+		// frames of one Write, the frames of the two payloads would interleave
+		e1 := 1 + r.Intn(5000)
+		e2 := 1 + r.Intn(5000)
+		for (2*mp+e1)%mp == SentinelLen {
+			e1++
 		}
+		for (2*mp+e2)%mp == SentinelLen || e2 == e1 {
+			e2++
+		}
+		in.SlowMs = 5
 		in.A = [][]WriteSpec{
-			{{Conn: 7, Len: 2*mp + extra, Seed: 9, Step: 7}},
-			small(40, 19), small(40, 23), small(40, 31),
+			{{Conn: 7, Len: 2*mp + e1, Seed: 9, Step: 7}},
+			{{Conn: 7, Len: 2*mp + e2, Seed: 130, Step: 3}},
+			small(20, 19), small(20, 23),
 		}
 		in.B = [][]WriteSpec{small(10, 37), small(10, 41)}
 	}
